@@ -21,7 +21,6 @@ import (
 	"github.com/go-netty/go-netty"
 	"github.com/go-netty/go-netty/codec"
 	"github.com/go-netty/go-netty/utils"
-	"io"
 )
 
 // VarintLengthFieldCodec create varint length field based codec
@@ -49,7 +48,7 @@ func (v *varintLengthFieldCodec) HandleRead(ctx netty.InboundContext, message ne
 	utils.AssertIf(frameLength > uint64(v.maxFrameLength),
 		"frame length too large, frameLength(%d) > maxFrameLength(%d)", frameLength, v.maxFrameLength)
 
-	ctx.HandleRead(io.LimitReader(reader, int64(frameLength)))
+	ctx.HandleRead(utils.ExactReader(reader, int64(frameLength)))
 }
 
 func (v *varintLengthFieldCodec) HandleWrite(ctx netty.OutboundContext, message netty.Message) {
